@@ -51,6 +51,64 @@ func debugMain(args []string) int {
 				}
 			}
 		}()
+	case "file":
+		// dbg file < a profile file on stdin: parse, show the preamble and the header, print again
+		b, _ := io.ReadAll(os.Stdin)
+		func() {
+			defer func() {
+				if p := recover(); p != nil {
+					fmt.Println("PANIC", p)
+				}
+			}()
+			f := &aa.AppArmorProfileFile{}
+			n, err := f.Parse(string(b))
+			if err != nil {
+				fmt.Println("ERR", err)
+				return
+			}
+			fmt.Println("lines read:", n)
+			for _, r := range f.Preamble {
+				j, _ := json.Marshal(r)
+				fmt.Printf("PRE %T %s\n", r, j)
+			}
+			for _, p := range f.Profiles {
+				j, _ := json.Marshal(p.Header)
+				fmt.Printf("HDR %s\n", j)
+			}
+			fmt.Println("----\n" + f.String())
+		}()
+	case "corpus":
+		// dbg corpus <apparmor.d dir>: every shipped profile through ParseRules
+		root := args[1]
+		nf, nerr, npanic, npara, nrules := 0, 0, 0, 0, 0
+		for _, f := range listFiles(root) {
+			if !isProfilePath(filepath.Base(f)) || !(len(f) > 7 && (f[:7] == "groups/" || f[:9] == "profiles-")) {
+				continue
+			}
+			b, _ := os.ReadFile(filepath.Join(root, f))
+			nf++
+			func() {
+				defer func() {
+					if p := recover(); p != nil {
+						npanic++
+						fmt.Println("PANIC", f, p)
+					}
+				}()
+				paras, _, err := aa.ParseRules(string(b))
+				if err != nil {
+					nerr++
+					if nerr < 15 {
+						fmt.Println("ERR", f, err)
+					}
+					return
+				}
+				for _, rs := range paras {
+					npara++
+					nrules += len(rs)
+				}
+			}()
+		}
+		fmt.Println("files", nf, "errors", nerr, "panics", npanic, "paragraphs", npara, "rules", nrules)
 	case "scanstats":
 		root := args[1]
 		cnt := map[string]int{}
